@@ -573,7 +573,13 @@ class Impl:
         # a logger is often configured after the scheduler was built: no handler yet at construction time
         self.logger.handlers = []
         self.logger.setLevel(logging.CRITICAL + 10 if self.user_logger == "quiet" else logging.DEBUG)
+        # ... and in half of the histories its level is raised only afterwards (silent while the scheduler is built)
+        late_level = self.user_logger != "quiet" and ((now // 1000) + mx) % 2 == 0
+        if late_level:
+            self.logger.setLevel(logging.CRITICAL + 10)
         self.sch = m["scheduler"].Scheduler(**kw)
+        if late_level:
+            self.logger.setLevel(logging.DEBUG)
         self.logger.handlers = [self.handler]
         # the iterable handed to the constructor stays the caller's: mutating it later must not matter
         cc = getattr(self, "ctor_container", None)
